@@ -1,4 +1,4 @@
--- Reproduction through the library API (tools/api_runner) of the defect repaired by the "fix:" commit 89d0d53b
+-- Reproduction through the library API (tools/api_runner) of the defect repaired by the "fix:" commit 4585fb51
 -- "ROLLBACK left indexes created inside the transaction behind (stale positions, panic on a missing column)".
 -- Run: /verif/.cache/runner-target/debug/runner findings/fixed_c15_rollback_left_indexes_of_the_transaction.sql
 -- BEFORE: (1) after the first ROLLBACK the index INA of the rolled-back table N survived with the positions of rows that no longer exist; with N
